@@ -4,8 +4,8 @@
    part 2 about the timed model of one name's flight table (Client/Lookup.v): any number of callers
    with any arrival instants, deadlines and cancellation instants, any service script (answer /
    fail after any delay, hang forever), any scheduler choice [wins] of who starts a retry flight.
-   [run fuel ... = Some s'] excludes only running out of fuel (fuel_for callers = 4n+4 steps; each
-   caller causes at most: one arrival, one return, one flight started at arrival or taken over).
+   [run fuel ... = Some s'] excludes only running out of fuel; C16_fuel_suffices proves that
+   fuel_for callers = 4n+4 is always enough.
    Assumptions: the service honours cancellation; instants are distinct; LookupSecret's
    unknown-name check and the start of the flight are one step. *)
 From Coq Require Import List Bool NArith ZArith Arith.
@@ -102,8 +102,15 @@ Theorem C16_safety_limit_and_not_failed_by_others : forall (nm : name) (callers 
        (forall k, r0 = ROwn k -> t0 = fst (cend c) /\ k = snd (cend c))).
 Proof. exact (@bounded V). Qed.
 
+(* the fuel used by the kernel comparison and by the examples always suffices: 4n+4 steps for n callers
+   (so the premise [run fuel .. = Some s'] of the two theorems above is met with fuel_for callers) *)
+Theorem C16_fuel_suffices : forall (nm : name) callers scr wn (st : store V),
+  run nm (fuel_for callers) (init callers scr wn st) <> None.
+Proof. exact (@fuel_suffices V). Qed.
+
 End C16.
 
+Print Assumptions C16_fuel_suffices.
 Print Assumptions C16_gate.
 Print Assumptions C16_known_handle.
 Print Assumptions C16_request_iff.
